@@ -15,6 +15,7 @@ import (
 // C08: static output order - file order kept, sequences sorted, row order irrelevant.
 
 type CaseC08 struct {
+	vt.Env
 	Feed      *sgen.Feed // stop_times and shapes rows grouped and ascending
 	STPerm    []int      // row i of the permuted stop_times.txt is row STPerm[i] of Feed.StopTimes
 	ShapePerm []int
@@ -179,6 +180,7 @@ func propC08(t *rapid.T) {
 	p1, k1 := genRowPerm(t, "st", g1)
 	p2, k2 := genRowPerm(t, "shape", g2)
 	c := CaseC08{Feed: f, STPerm: p1, ShapePerm: p2}
+	c.Env = genEnv(t)
 	cls08 := []string{"stop_times:" + k1, "shapes:" + k2}
 	if many {
 		cls08 = append(cls08, fmt.Sprintf("many-groups-%d", len(f.Trips)))
